@@ -16,7 +16,7 @@ Open Scope N_scope.
 
 Lemma deferred_not_eligible g s : s_deferred s = true -> eligible_cached g s = false.
 Proof.
-  intros H. unfold eligible_cached, eligible_cached_with, senv. rewrite dispatch_where_meaning, H.
+  intros H. rewrite eligible_cached_unfold. unfold eligible_cached_with, senv. rewrite dispatch_where_meaning, H.
   cbn [negb]. rewrite !andb_false_r. reflexivity.
 Qed.
 
@@ -28,7 +28,7 @@ Qed.
 
 Theorem dispatch_set_pending g s : In s (dispatch_set g) -> s_state s = ST_PENDING.
 Proof.
-  unfold dispatch_set. rewrite filter_In. intros [_ H]. unfold eligible_cached, eligible_cached_with, senv in H.
+  unfold dispatch_set. rewrite filter_In. intros [_ H]. rewrite eligible_cached_unfold in H. unfold eligible_cached_with, senv in H.
   rewrite dispatch_where_meaning in H. rewrite !andb_true_iff in H.
   destruct H as [[[[[[[H _] _] _] _] _] _] _]. apply N.eqb_eq in H. exact H.
 Qed.
